@@ -574,9 +574,9 @@ impl AtomicPosition {
         // convert into capacity now, so we're saving it for later. We do this by
         // subtracting this from `elapsed` before storing it into `self.prev`.
         let (new, remainder) = ((diff / INTERVAL), (diff % INTERVAL));
-        // We add `new` to `capacity`, subtract one for returning `true` from here,
-        // then make sure it does not exceed a maximum of `MAX_BURST`.
-        capacity = Ord::min(MAX_BURST as u128, (capacity as u128) + (new as u128) - 1) as u8;
+        // We add `new` to `capacity`, make sure it does not exceed a maximum of `MAX_BURST`,
+        // then subtract one for returning `true` from here.
+        capacity = (Ord::min(MAX_BURST as u128, (capacity as u128) + (new as u128)) - 1) as u8;
 
         // Then, we just store `capacity` and `prev` atomically for the next iteration
         self.capacity.store(capacity, Ordering::Release);
